@@ -227,6 +227,9 @@ def _w_g1(args):
     quick, lo, hi = args
     r = core.Res()
     for code in range(lo, hi):
+        if core.expired():
+            r.caps.append('deadline reached inside a chunk')
+            break
         G, classes = U.k1_classes(code)
         for start, wf, nr in classes:
             R = O.reach(G, start)
